@@ -573,4 +573,21 @@ theorem C01_acked_commit_survives (s0 : PState) (h0 : Inv s0) (t : List Op)
 
 example : Op.ack 2 ∈ demoTrace.take 30 := by decide
 
+/-!
+## OPEN (not proved; tied to the code by the run only)
+
+* OPEN: the storage fault model itself — that `terminate` = `fdatasync`, `sync_directory` =
+  `fsync(dirfd)`, `tempfile::persist` = `rename`, and that the logged order of concurrent
+  threads is a legal linearisation — is the model of the property's quantifier, not verified
+  (the strace / MmapDirectory mapping check is not built).
+* OPEN: the side conditions `WOk` of the writer events (new files are fresh, a new `meta.json`
+  references only finished files, …) and the decomposition of a real log into `WEv`s are not
+  proved of the Rust code. Under concurrency a real log is not a concatenation of the coarse
+  events (a merge thread's file operations interleave with the updater's `save_metas`), so the
+  tie is `C01_run_verdict_is_hypothesis`: the same rules are decided per operation on every
+  real log, and that verdict is literally the hypothesis of `C01_recover_disciplined`.
+* OPEN: `recover` (meta present, referenced files sealed) is the specification of
+  `Index::open` + searcher; their agreement is checked on every materialised image, not proved.
+-/
+
 end TantivyModel.C01
